@@ -37,6 +37,19 @@ func ipamHistSystems(cloud bool) []*HistSys {
 		out = append(out, &HistSys{Class: c, Cfg: cfgTwoPools(cloud), NPods: 2, Replicas: 2, Ops: ops, PrefixName: "bothdeleted", Prefix: reserved})
 		out = append(out, &HistSys{Class: c, Cfg: cfgTwoPools(cloud), NPods: 2, Replicas: 2, Ops: ops, PrefixName: "onedeleted", Prefix: oneEach})
 	}
+	// two pools that share one pod subnet (disjoint ranges, different node subnets), with restarts in the alphabet: which pool an
+	// allocated IP belongs to is decided again whenever the tables are rebuilt
+	opsR := map[string]bool{"restart": true}
+	for k, v := range ops {
+		opsR[k] = v
+	}
+	shared := world.Config{Pools: "[" +
+		poolJSON([]string{"10.0.1.0/24"}, []string{"10.10.1.1~10.10.1.2"}, "10.10.1.0/24", "10.10.1.254", 0) + "," +
+		poolJSON([]string{"10.0.2.0/24"}, []string{"10.10.1.5~10.10.1.6"}, "10.10.1.0/24", "10.10.1.254", 0) + "]",
+		Nodes: nodesN1N2, Cloud: cloud}
+	for _, c := range []wkClass{{"sts", ""}, {"sts", "never"}, {"dp", "immutable"}} {
+		out = append(out, &HistSys{Class: c, Cfg: shared, NPods: 2, Replicas: 2, Ops: opsR, PrefixName: "shared-pod-subnet"})
+	}
 	return out
 }
 
